@@ -44,8 +44,23 @@ unsafe impl GlobalAlloc for Counting {
 	}
 }
 
-/// One document of the stream, `size` bytes exactly (size >= 40).
+/// One document of the stream, `size` bytes exactly (size >= 40).  "yaml16" / "yaml32": the YAML document in
+/// UTF-16LE / UTF-32LE without a byte order mark (size a multiple of 2 / 4).
 fn make_doc(format: &str, i: usize, size: usize) -> Vec<u8> {
+	let unit = match format {
+		"yaml16" => 2,
+		"yaml32" => 4,
+		_ => 1,
+	};
+	if unit > 1 {
+		let narrow = make_doc("yaml", i, size / unit);
+		let mut d = Vec::with_capacity(size);
+		for b in narrow {
+			d.push(b);
+			d.extend(std::iter::repeat(0u8).take(unit - 1));
+		}
+		return d;
+	}
 	let i = 1_000_000_000 + i % 1_000_000_000; // fixed width in every output format
 	match format {
 		"json" => {
@@ -145,12 +160,14 @@ pub fn run_stream(req: &Value) -> Value {
 	let n = req["n"].as_u64().unwrap_or(100) as usize;
 	let size = (req["size"].as_u64().unwrap_or(64) as usize).max(48);
 	let packet = (req["packet"].as_u64().unwrap_or(size as u64) as usize).max(1);
-	let from = if req["detect"].as_bool().unwrap_or(false) { None } else { crate::session::parse_format(&format) };
+	let fmt_name = if format.starts_with("yaml") { "yaml".to_string() } else { format.clone() };
+	let size = if format == "yaml16" { size.max(96) / 2 * 2 } else if format == "yaml32" { size.max(192) / 4 * 4 } else { size };
+	let from = if req["detect"].as_bool().unwrap_or(false) { None } else { crate::session::parse_format(&fmt_name) };
 	// output size of one document, from a one-document run
 	let one = {
 		let mut out = vec![];
 		let doc = make_doc(&format, 0, size);
-		let _ = xt::translate_slice(&doc, crate::session::parse_format(&format), to, &mut out);
+		let _ = xt::translate_slice(&doc, crate::session::parse_format(&fmt_name), to, &mut out);
 		out.len()
 	};
 	let written = Rc::new(Cell::new(0));
